@@ -82,7 +82,7 @@ def decode(script):
         out.append((op, data, pc))
     return out
 
-def has_valid_ops(script, max_opcode=0xb9):
+def has_valid_ops(script, max_opcode=0xba):
     for e in decode(script):
         if e is None: return False
         op, data, _ = e
@@ -371,7 +371,7 @@ def checksig(st, sig, key, script, codesep_start):
         return ok
     if sv == TAPROOT:
         r = st.ck.check_schnorr(sig, key, TAPROOT, st.execdata)
-        if r is not True: raise ScriptFail('UNKNOWN')   # btcdeb preamble: error not set
+        if r is not True: raise ScriptFail(r or 'UNKNOWN')   # BIP341 key path: size / hash type / signature errors (missing spent-output data: no specific error)
         return True
     ok = len(sig) > 0
     if ok and st.execdata['weight'] is not None:
